@@ -205,6 +205,16 @@ def run_seeded(name):
         r = subprocess.run([os.path.join(HERE, "check"), prop, "--repo", tmp, "--tier", "quick"], capture_output=True, text=True, env=env, cwd=HERE)
         first = [l for l in r.stdout.splitlines() if l.startswith("  ")][:1]
         status = "OK" if r.returncode == 1 else ("ERROR" if r.returncode == 2 else "MISSED")
+        # a change archived as a KNOWN MISS (meta.json: "known_miss") is expected to stay unreported; it is listed, not hidden,
+        # and counts as "not as expected" the day a check starts reporting it (so the record gets updated)
+        try:
+            import json as _json
+
+            known_miss = bool(_json.load(open(os.path.join(d, "meta.json"))).get("known_miss"))
+        except Exception:
+            known_miss = False
+        if known_miss:
+            status = "OK (known miss, see meta.json)" if r.returncode == 0 else ("NOW-REPORTED" if r.returncode == 1 else "ERROR")
         return (prop, "seeded:" + name[4:26], status, first[0].strip()[:160] if first else r.stdout.strip()[-160:])
     finally:
         shutil.rmtree(tmp, ignore_errors=True)
@@ -238,7 +248,7 @@ def main(argv):
     bad = 0
     for r in res:
         print("%-4s %-22s %-11s %s" % r)
-        if r[2] != "OK":
+        if not r[2].startswith("OK"):
             bad += 1
     print("mutants: %d, not as expected: %d" % (len(res), bad))
     return 1 if bad else 0
